@@ -1,0 +1,14 @@
+//go:build verif
+
+package servers
+
+// VerifSetLockOpts lets the verification harness change the lock options
+// (zero retry backoff while interleavings are enumerated under a controlled scheduler).
+func (r *Repository) VerifSetLockOpts(opts LockOpts) {
+	r.lockOpts = opts
+}
+
+// VerifLockOpts returns the lock options in effect.
+func (r *Repository) VerifLockOpts() LockOpts {
+	return r.lockOpts
+}
